@@ -183,6 +183,7 @@ def run_program(mg, base, lines, res, make_setup=None, invalid_backprop_ok=False
             return ("value", "L differs from the NumPy twin")
         init = {n: _uids(S.env_np()[n]) for n in getattr(S, "INIT_NAMES", ("t",) + LEAVES)}
         fam = A["__fam__"]
+        view_of, owner_ref = {}, {}
         for n, (g, shp, const) in grads.items():
             if const:
                 if g is not None:
@@ -191,6 +192,18 @@ def run_program(mg, base, lines, res, make_setup=None, invalid_backprop_ok=False
             # version rule (family level, as C06 requires v.grad to be a view of the base's gradient): a tensor is
             # "mutated" by every in-place statement whose target shares memory with it; its current value is
             # the one after the last such statement (or after its creation)
+            # a view's gradient is by definition the view of its owner's gradient (C06): compare it with the owner's
+            # reference gradient gathered at the memory positions the view addresses
+            if n not in init and vp.ultimate(A[n]) is not A[n]:
+                # owner = the earliest-created named tensor whose memory covers every cell the view addresses
+                order = [m for m in hist[-1] if m in grads and m != n and not grads[m][2]]
+                order.sort(key=lambda m: -1 if m in init else next(i for i, h in enumerate(hist) if m in h))
+                created_n = next(i for i, h in enumerate(hist) if n in h)
+                ow = [m for m in order if (m in init or next(i for i, h in enumerate(hist) if m in h) < created_n)
+                      and np.shares_memory(A[m], A[n]) and _positions(A[n], A[m]) is not None]
+                if ow:
+                    view_of[n] = ow[0]
+                    continue
             idx = -1
             for i, h in enumerate(hist):
                 if n in h and idx < 0 and n not in init:
@@ -205,6 +218,8 @@ def run_program(mg, base, lines, res, make_setup=None, invalid_backprop_ok=False
                 subst[cv.uid] = val
             if g is not None and tuple(np.shape(g)) != tuple(cutarr.shape):
                 return ("grad", "%s.grad has shape %s, tensor has %s" % (n, np.shape(g), cutarr.shape))
+            refs, ddom = diff.grad(Lcut, terms_of(cutarr))
+            owner_ref[n] = (tm.substitute(refs, subst), tm.substitute(ddom, subst), tuple(cutarr.shape))
             rr = vjp.check_grads(p, Lcut, [(n, cutarr, g)], timeout_ms=10000, subst=subst)
             res["unsat"] += rr["unsat"]
             res["sat"] += rr["sat"]
@@ -214,7 +229,42 @@ def run_program(mg, base, lines, res, make_setup=None, invalid_backprop_ok=False
             if rr["cex"] is not None:
                 return ("grad", "%s.grad differs from the derivative of the functional twin w.r.t. %s's %s value"
                         % (n, n, "current (post-mutation)" if idx >= 0 else "initial"))
+        for n, o in view_of.items():
+            g, shp, const = grads[n]
+            if o not in owner_ref:
+                continue
+            refs, ddom, oshape = owner_ref[o]
+            if g is None:
+                g = np.zeros(shp, dtype=object)
+            if tuple(np.shape(g)) != tuple(A[n].shape):
+                return ("grad", "%s.grad has shape %s, tensor has %s" % (n, np.shape(g), A[n].shape))
+            pos = _positions(A[n], A[o])
+            if pos is None:
+                continue
+            prob = query.Problem(conds + list(ddom))
+            r = prob.differ_any(list(zip(terms_of(g), [refs[k] for k in pos])), 10000)
+            res[r.verdict] += 1
+            if r.verdict == "sat":
+                return ("grad", "%s.grad differs from the view of the reference gradient of its base %s" % (n, o))
+            if r.verdict == "unknown":
+                return ("unknown", "solver unknown for view %s" % n)
     return None
+
+
+def _positions(view, owner):
+    """for every element of `view` (logical order) the flat logical index of the same memory cell in `owner`"""
+    def addrs(a):
+        p0 = a.__array_interface__["data"][0]
+        out = []
+        for idx in np.ndindex(*a.shape):
+            out.append(p0 + sum(i * s for i, s in zip(idx, a.strides)))
+        return out
+
+    oa = {ad: k for k, ad in enumerate(addrs(owner))}
+    try:
+        return [oa[ad] for ad in addrs(view)]
+    except KeyError:
+        return None
 
 
 def replay_source(base, lines):
@@ -268,8 +318,26 @@ except Exception as e:
 if not bad:
     A, hist = twin(INIT)
     if abs(float(A["L"]) - float(T["L"].data)) > 1e-9 * max(1, abs(float(A["L"]))): bad.append(("L", float(A["L"]), float(T["L"].data)))
+    def positions(view, owner):
+        def addrs(a):
+            p0 = a.__array_interface__["data"][0]
+            return [p0 + sum(i * s for i, s in zip(idx, a.strides)) for idx in np.ndindex(*a.shape)]
+        oa = {ad: k for k, ad in enumerate(addrs(owner))}
+        try: return [oa[ad] for ad in addrs(view)]
+        except KeyError: return None
+    created = {}
+    for i, (h, f) in enumerate(hist):
+        for n in h: created.setdefault(n, i)
+    owner_num = {}
+    views = {}
     for n in NAMES + ("y0", "yv", "y2"):
         if n not in T or not isinstance(T[n], mg.Tensor) or T[n].constant: continue
+        if n not in INIT:
+            ow = [m for m in sorted([m for m in NAMES if m in A and m != n and m in T and isinstance(T[m], mg.Tensor) and not T[m].constant],
+                                    key=lambda m: -1 if m in INIT else created.get(m, 99))
+                  if (m in INIT or created.get(m, 99) < created.get(n, 0)) and isinstance(A[m], np.ndarray) and np.shares_memory(A[m], A[n]) and positions(A[n], A[m]) is not None]
+            if ow:
+                views[n] = ow[0]; continue
         idx = -1
         for i, (h, f) in enumerate(hist):
             if n in h and idx < 0 and n not in INIT: idx = i
@@ -281,9 +349,17 @@ if not bad:
             Lp = float(twin(INIT, (n, idx, (val.reshape(-1) + e).reshape(val.shape)))[0]["L"])
             Lm = float(twin(INIT, (n, idx, (val.reshape(-1) - e).reshape(val.shape)))[0]["L"])
             num[j] = (Lp - Lm) / 2e-6
+        owner_num[n] = num
         g = T[n].grad
         got = np.zeros(val.size) if g is None else np.asarray(g, dtype=float).reshape(-1)
         if got.shape != num.shape or not np.allclose(got, num, rtol=1e-4, atol=1e-5): bad.append((n, "grad", got.tolist(), "reference", num.tolist()))
+    for n, o in views.items():
+        if o not in owner_num: continue
+        pos = positions(A[n], A[o])
+        ref = np.array([owner_num[o][k] for k in pos])
+        g = T[n].grad
+        got = np.zeros(ref.size) if g is None else np.asarray(g, dtype=float).reshape(-1)
+        if got.shape != ref.shape or not np.allclose(got, ref, rtol=1e-4, atol=1e-5): bad.append((n, "view grad", got.tolist(), "view of the base's reference", ref.tolist()))
 print(bad)
 print('REPRODUCED' if bad else 'NOT-REPRODUCED'); sys.exit(1 if bad else 0)
 ''' % (tuple(shape), base in vp.F_ORDERED, tuple(shape), shape[-1], list(lines),
